@@ -71,7 +71,31 @@ func (vc *VC) verifyFunction() {
 	for i := 0; i < sig.Params().Len(); i++ {
 		bind(sig.Params().At(i), "p")
 	}
-	// free variables of closures verified standalone are created lazily by evalIdent
+	// free variables of a closure verified standalone: one unconstrained value each (typed ranges assumed)
+	if fi.Lit != nil {
+		ast.Inspect(fi.Lit.Body, func(n ast.Node) bool {
+			id, ok := n.(*ast.Ident)
+			if !ok {
+				return true
+			}
+			o, ok := vc.eng.info.Uses[id].(*types.Var)
+			if !ok || o.IsField() || (o.Pkg() != nil && o.Parent() == o.Pkg().Scope()) {
+				return true
+			}
+			if o.Pos() >= fi.Lit.Pos() && o.Pos() <= fi.Lit.End() {
+				return true
+			}
+			if _, done := st.locals[o]; done {
+				return true
+			}
+			srt := vc.sortOf(o.Type())
+			n2 := "free_" + sanitize(o.Name())
+			vc.declare(n2, srt)
+			st.locals[o] = n2
+			vc.assumeRange(st, Val{S: n2, Ty: o.Type(), Sort: srt})
+			return true
+		})
+	}
 	for i := 0; i < sig.Results().Len(); i++ {
 		r := sig.Results().At(i)
 		if r.Name() != "" && r.Name() != "_" {
@@ -87,7 +111,8 @@ func (vc *VC) verifyFunction() {
 		vc.axiomFacts = append(vc.axiomFacts, t)
 		vc.noteAssumption(fmt.Sprintf("axiom (%s:%d): %s  [%s]", shortFile(ax.File), ax.Line, ax.Src, ax.Reason))
 	}
-	if ct != nil {
+	cutMode := ct != nil && ct.Options["start-at-loop"] != ""
+	if ct != nil && !cutMode {
 		for _, rq := range ct.Requires {
 			t := vc.specBool(st, vc.entry, rq.Expr, nil, nil)
 			vc.assume(st, t)
@@ -98,12 +123,58 @@ func (vc *VC) verifyFunction() {
 			vc.noteAssumption(fmt.Sprintf("assume in %s: %s  [%s]", ct.Key, as.Src, as.Reason))
 		}
 	}
+	stmts := fi.Body.List
+	if ct != nil && ct.Options["start-at-loop"] != "" {
+		// CUT: verification starts at the given top-level loop; everything before it (typically a concurrent phase)
+		// is replaced by the contract's `assume` clauses, evaluated over unconstrained values of the locals declared before.
+		n := 0
+		fmt.Sscanf(ct.Options["start-at-loop"], "%d", &n)
+		idx, skippedLoops := vc.findTopLevelLoop(stmts, n)
+		if idx < 0 {
+			vc.unsupportedf(fi.Body.Pos(), "start-at-loop %d: no such top-level loop", n)
+			return
+		}
+		for _, sk := range stmts[:idx] {
+			ast.Inspect(sk, func(nd ast.Node) bool {
+				if _, isLit := nd.(*ast.FuncLit); isLit {
+					return false
+				}
+				id, ok := nd.(*ast.Ident)
+				if !ok {
+					return true
+				}
+				o, ok := vc.eng.info.Defs[id].(*types.Var)
+				if !ok || o == nil || id.Name == "_" {
+					return true
+				}
+				srt := vc.sortOf(o.Type())
+				nm := vc.fresh("cut_"+o.Name(), srt)
+				st.locals[o] = nm
+				vc.assumeRange(st, Val{S: nm, Ty: o.Type(), Sort: srt})
+				return true
+			})
+		}
+		// state written before the cut is unknown
+		vc.havocAllHeap(st)
+		for g := range vc.eng.specs.Ghosts {
+			st.ghost[g] = vc.fresh("g_"+g, vc.eng.ghostSort(g))
+		}
+		fr.loopBase = skippedLoops
+		stmts = stmts[idx:]
+		vc.noteAssumption(fmt.Sprintf("CUT in %s: verification starts at loop %d; the code before it is replaced by the contract's assume clauses", fi.Key, n))
+		vc.entry = st.clone()
+		fr.oldState = vc.entry
+		for _, as := range ct.Assumes {
+			t := vc.specBool(st, vc.entry, as.Expr, nil, nil)
+			vc.assume(st, t)
+		}
+	}
 	vc.entryPCLen = len(st.pc)
 	vc.entryPC = append([]string(nil), st.pc...)
 	// re-snapshot entry so that old() sees lazily created ghosts consistently
 	vc.entry = st.clone()
 	fr.oldState = vc.entry
-	f := vc.execBlock(st, fi.Body.List)
+	f := vc.execBlock(st, stmts)
 	if f.normal != nil {
 		if sig.Results().Len() == 0 {
 			vc.finishReturn(f.normal, nil, fi.Body.End())
@@ -408,4 +479,33 @@ func (vc *VC) recordAlloc(st *State, c *ast.CallExpr, n Val, hasCap bool) {
 	}
 	b := vc.specEval(st, vc.entry, e, nil, nil)
 	vc.emit(st, "alloc", vc.fn.Key+"/alloc", vc.site("alloc"), fmt.Sprintf("(<= %s %s)", n.S, b.S), c.Pos(), "allocation bounded by "+boundSrc)
+}
+
+
+// findTopLevelLoop returns the index of the top-level statement that is the n-th loop of the function (1-based, counting
+// nested loops in source order) and the number of loops that precede it.
+func (vc *VC) findTopLevelLoop(stmts []ast.Stmt, n int) (int, int) {
+	count := 0
+	for i, s := range stmts {
+		inner := s
+		if ls, ok := s.(*ast.LabeledStmt); ok {
+			inner = ls.Stmt
+		}
+		switch inner.(type) {
+		case *ast.ForStmt, *ast.RangeStmt:
+			if count+1 == n {
+				return i, count
+			}
+		}
+		ast.Inspect(s, func(nd ast.Node) bool {
+			switch nd.(type) {
+			case *ast.FuncLit:
+				return false
+			case *ast.ForStmt, *ast.RangeStmt:
+				count++
+			}
+			return true
+		})
+	}
+	return -1, 0
 }
